@@ -713,8 +713,10 @@ def desugar_closure_pattern(body, rules, specs):
     k = 0
     while i < len(out):
         t = out[i]
-        if t.s == "|" and i > 0 and out[i - 1].s in ("(", ",") and i + 1 < len(out) and out[i + 1].s == "(":
-            close = match_close(out, i + 1)
+        ident_closure = (t.s == "|" and i > 0 and out[i - 1].s in ("(", ",") and i + 2 < len(out) and out[i + 1].k == "id"
+                         and out[i + 2].s == "|" and k in specs)
+        if ident_closure or (t.s == "|" and i > 0 and out[i - 1].s in ("(", ",") and i + 1 < len(out) and out[i + 1].s == "("):
+            close = i + 1 if ident_closure else match_close(out, i + 1)
             if close + 1 < len(out) and out[close + 1].s == "|":
                 pat = out[i + 1:close + 1]
                 # the closure body: a block, or an expression up to the closing parenthesis / comma of the enclosing call
@@ -736,16 +738,26 @@ def desugar_closure_pattern(body, rules, specs):
                         b1 += 1
                 expr = out[b0:b1]
                 name, res = "__cp%d" % k, "__cq%d" % k
-                ann = ""
+                if ident_closure:
+                    name = pat[0].s      # an identifier parameter keeps its name: only ghost annotations are added (no R24)
+                ann, prf = "", ""
                 if k in specs:
                     ty, ens = specs[k]
+                    ens, _, prf = ens.partition(" :: ")
                     ann = " -> ( %s : %s ) ensures %s" % (res, ty, ens.replace("__p", name).replace("__q", res))
                 new = [Tok("p", "|", t.a, t.a), Tok("id", name, t.a, t.a), Tok("p", "|", t.a, t.a)]
                 if ann:
                     new.append(Tok("raw", ann, t.a, t.a))
-                new += [Tok("p", "{", t.a, t.a), Tok("id", "let", t.a, t.a)] + pat + [Tok("p", "=", t.a, t.a), Tok("id", name, t.a, t.a), Tok("p", ";", t.a, t.a)] + expr + [Tok("p", "}", t.a, t.a)]
+                new.append(Tok("p", "{", t.a, t.a))
+                if prf.strip():
+                    new.append(Tok("raw", "proof { %s }" % prf.replace("__p", name).strip(), t.a, t.a))
+                if not ident_closure:
+                    new += [Tok("id", "let", t.a, t.a)] + pat + [Tok("p", "=", t.a, t.a), Tok("id", name, t.a, t.a), Tok("p", ";", t.a, t.a)]
+                    rules.fired.add("R24")
+                else:
+                    rules.fired.add("R9")
+                new += expr + [Tok("p", "}", t.a, t.a)]
                 out = out[:i] + new + out[b1:]
-                rules.fired.add("R24")
                 k += 1
                 i += len(new)
                 continue
